@@ -98,6 +98,7 @@ func xgoSource(scs []*Scenario) string {
 		for _, f := range sc.Prog.Funcs {
 			b.WriteString(f.XGo())
 		}
+		b.WriteString(sc.XGoExtra)
 	}
 	return b.String()
 }
